@@ -55,6 +55,8 @@ fn main() {
         ("drive", "bigsst") => props::bigsst::drive(&args),
         ("replay", "datatype") => props::datatype::replay(&args),
         ("replay", "dims") => props::datatype::replay_dims(&args),
+        ("replay", "pictures") => props::pictures::replay(&args),
+        ("drive", "pictures") => props::pictures::drive(&args),
         ("replay", "range_views") => props::range_views::replay(&args),
         ("drive", "range_views") => props::range_views::drive(&args),
         ("replay", "stored_formula") => props::stored_formula::replay(&args),
